@@ -1,5 +1,5 @@
 (** * C03 -- the dagger of every operator is its inverse *)
-From QV Require Import Spec Expr ScalarR C03T C03T2.
+From QV Require Import Spec Expr ScalarR C03T C03T2 C03T3.
 
 Theorem C03_product : C03_product_stmt.
 Proof. exact C03_product_proof. Qed.
@@ -16,3 +16,7 @@ Print Assumptions C03_atomic.
 Theorem C03_circuit : C03_circuit_stmt.
 Proof. exact C03_circuit_proof. Qed.
 Print Assumptions C03_circuit.
+
+Theorem C03_adjoint : C03_adjoint_stmt.
+Proof. exact C03_adjoint_proof. Qed.
+Print Assumptions C03_adjoint.
